@@ -30,9 +30,10 @@
 #include <rng.h>
 #include <encoded_sizes.h>
 
-#ifndef SQISIGN_SQISIGN2D_WEST_AC24_VERIF
-#error "driver needs the hook guard"
-#endif
+/* the trace hook of the repo (guarded, see ec.h); declared weak so that the driver also links against a tree
+   without the hook: trace ops then answer "R no-hook" */
+extern void (*sqisign_verif_trace)(int tag, int a, int b, int c) __attribute__((weak));
+#define HAVE_HOOK (&sqisign_verif_trace != 0)
 
 #define F ((int)TORSION_PLUS_EVEN_POWER)
 #define MAXTOK 1200
@@ -151,6 +152,7 @@ op_even_trace(int n)
     ec_point_t K = BASIS_EVEN.P;
     if (n <= F) ec_dbl_iter(&K, F - n, &E, &K);
     phi.kernel = K;
+    if (!HAVE_HOOK) { fprintf(OUT, "R no-hook\n"); return; }
     trn = 0;
     sqisign_verif_trace = trace_cb;
     ec_eval_even(&img, &phi, NULL, 0);
@@ -222,8 +224,16 @@ op_even_e2e(int ntok, char **tok)
         if (is_above == (above != 0)) break;
     }
     ec_biscalar_mul(&R, &E, c, d, &B);
+    int sing = 0;
+    if (n >= 2) {
+        ec_point_t K4 = K;
+        ec_dbl_iter(&K4, n - 2, &E, &K4);
+        fp2_t mz;
+        fp2_neg(&mz, &K4.z);
+        sing = fp2_is_equal(&K4.x, &K4.z) ? 1 : (fp2_is_equal(&K4.x, &mz) ? -1 : 0);
+    }
 
-    fprintf(OUT, "R n=%x above=%d dom", n, is_above);
+    fprintf(OUT, "R n=%x above=%d sing=%d dom", n, is_above, sing);
     print_A(&E);
     fprintf(OUT, " pts");
     ec_point_t in[5] = { K, B.P, B.Q, B.PmQ, R };
@@ -238,9 +248,8 @@ op_even_e2e(int ntok, char **tok)
     print_A(&img2);
     for (int i = 0; i < 5; i++) print_x(&p2[i]);
 
-    /* strategy routine (only when the table has a row for n) */
-    int nrows = (int)(sizeof(STRATEGY4) / sizeof(STRATEGY4[0]));
-    if (n >= 2 && (n <= 3 || (F - n >= 0 && F - n < nrows))) {
+    /* public entry point ec_eval_even (strategy routine or, for lengths without a table row, the naive chain) */
+    if (n >= 1) {
         ec_point_t p1[5];
         memcpy(p1, in, sizeof(in));
         ec_isog_even_t phi;
@@ -264,6 +273,11 @@ op_even_e2e(int ntok, char **tok)
         fprintf(OUT, " weil");
         print_fp2(&e0);
         print_fp2(&e1);
+        /* history: evaluate the same ec_isog_even_t a second time (no points) */
+        ec_curve_t img3;
+        ec_eval_even(&img3, &phi, NULL, 0);
+        fprintf(OUT, " again");
+        print_A(&img3);
     } else {
         fprintf(OUT, " strat none");
     }
@@ -296,6 +310,7 @@ run_theta_trace(int n, int ea, int which, int *strategy)
     theta_couple_curve_t E01;
     theta_couple_point_t T1, T2, T1m2;
     theta_chain_t ch;
+    if (!HAVE_HOOK) { fprintf(OUT, "R no-hook\n"); return; }
     arbitrary_kernel(&E01, &T1, &T2, &T1m2, ea ? n + 2 : n);
     trn = 0;
     sqisign_verif_trace = trace_cb;
@@ -314,6 +329,7 @@ op_theta_bal(int n)
     theta_couple_curve_t E01;
     theta_couple_point_t T1, T2, T1m2;
     theta_chain_t ch;
+    if (!HAVE_HOOK) { fprintf(OUT, "R no-hook\n"); return; }
     arbitrary_kernel(&E01, &T1, &T2, &T1m2, n + 2);
     trn = 0;
     sqisign_verif_trace = trace_cb;
